@@ -23,9 +23,7 @@ Definition ema_step (beta : Qc) (c : ecell) (row : fl * bool) : ecell * fl :=
   let w1 := if valid then (wts c + 1)%Qc else wts c in
   ({| res_ := (r1 * beta)%Qc; wts := (w1 * beta)%Qc; last_out := out; seen_ := true; last_t := last_t c |}, out).
 
-Definition ema_rows (gk : list Z) (vals : list fl) (mask : option (list bool)) :=
-  map (fun i => (get (-1) gk i, (get FNan vals i, match mask with None => true | Some m => get false m i end)))
-      (seq 0 (length gk)).
+Definition ema_rows (gk : list Z) (vals : list fl) (mask : option (list bool)) := mk_rows gk vals mask.
 
 Definition ema_grouped (gk : list Z) (vals : list fl) (alpha : Qc) (ngroups : nat)
     (mask : option (list bool)) : list fl :=
@@ -45,9 +43,7 @@ Definition ema_timed_step (decay : Z -> Qc) (c : ecell) (row : fl * bool * Z) : 
 Definition ema_grouped_timed (decay : Z -> Qc) (gk : list Z) (vals : list fl) (times : list Z)
     (ngroups : nat) (mask : option (list bool)) : list fl :=
   kscan ecell0 (ema_timed_step decay) FNan
-        (map (fun i => (get (-1) gk i, (get FNan vals i,
-                         match mask with None => true | Some m => get false m i end, get 0 times i)))
-             (seq 0 (length gk)))
+        (map (fun r => (fst r, (fst (fst (snd r)), snd (snd r), snd (fst (snd r))))) (mk_rows gk (combine vals times) mask))
         (repeat ecell0 ngroups).
 
 (* ungrouped kernels *)
